@@ -179,7 +179,8 @@ fn cmp_out(exp: &Out, obs: &Obs) -> Result<(), (bool, String)> {
             let eid = exp.id;
             if eid != *id {
                 Err((true, format!("returned value id {id}, expected {eid}")))
-            } else if exp.gen != *gen {
+            } else if (exp.gen == 0) != (*gen == 0) {
+                // gen 0: the configured value itself (moved out); otherwise some clone of it, however many hops away
                 Err((true, format!("value id {id} returned with clone generation {gen}, expected {}", exp.gen)))
             } else {
                 Ok(())
@@ -337,12 +338,14 @@ impl Replayer {
                     clones.clear();
                     let r = finish(orig, &step.via);
                     self.check_verdict(beh, si + 1, v, &r, &mock_msgs);
-                    // C12: the mock is gone now; every configured value was constructed once, cloned once
-                    // per delivery (never for single-use or lent values) and dropped exactly once per copy
+                    // C12: the mock is gone now; every configured value was constructed once, never cloned if it is
+                    // single-use or lent, cloned at least once per delivery otherwise (how many intermediate copies
+                    // the library makes is its own business), and every copy was dropped exactly once
                     for vr in &beh.vals {
                         let (made, clones_n, drops) = counts(vr.id);
                         let exp_clones = if vr.owned && !vr.single { vr.delivered } else { 0 };
-                        if made != 1 || clones_n != exp_clones || drops != made + clones_n {
+                        let clones_ok = if !vr.owned || vr.single { clones_n == 0 } else { clones_n >= exp_clones };
+                        if made != 1 || !clones_ok || drops != made + clones_n {
                             self.diverge(beh, si + 1, "value conservation (constructed, cloned, dropped)", true,
                                 json!({"id": vr.id, "made": 1, "clones": exp_clones, "drops": 1 + exp_clones}),
                                 json!({"id": vr.id, "made": made, "clones": clones_n, "drops": drops}));
